@@ -16,7 +16,7 @@ import (
 //	StructV    struct: field slots
 //	PtrV       pointer: a Go pointer to a slot, or a symbolic-index view into a run of slots
 //	SliceV     slice: Go slice of slots (real aliasing, concrete len/cap)
-//	*MapV      map with concrete keys, insertion ordered
+//	*MapV      map, insertion ordered, keys may be symbolic (maps.go)
 //	IfaceV     interface value with concrete dynamic type
 //	*ClosureV  function value (also plain functions and bound builtins)
 //	TupleV     multi-value result
@@ -52,16 +52,6 @@ type SliceV struct {
 	Grown bool
 }
 
-type MapV struct {
-	keys []string
-	kv   map[string]*mapEntry
-}
-
-type mapEntry struct {
-	k, v Value
-	dead bool
-}
-
 type IfaceV struct {
 	T types.Type // nil for the nil interface
 	V Value
@@ -85,7 +75,7 @@ type Poison struct{ Why string }
 type rangeIter struct {
 	isMap bool
 	m     *MapV
-	keys  []string
+	ents  []*mapEntry
 	str   StrV
 	pos   int
 }
